@@ -156,3 +156,18 @@ func debugAuc(w *World, ev *Event, res Result) {
 		fmt.Printf("    limit protocol data coll=%d debt=%d bidvalue=%s\n", pd.CollateralAssetId, pd.DebtAssetId, pd.BidValue)
 	}
 }
+
+func debugEsm(w *World, ev *Event, res Result) {
+	if os.Getenv("VERIF_DEBUG_ESM") == "" || w.Cdp == nil {
+		return
+	}
+	ctx := w.Ctx()
+	fmt.Printf("--- h=%d t=%d after %s %s ok=%v\n", w.Height(), w.Hdr.Time.Unix(), ev.Kind, ev.Tag, res.Tx.OK())
+	fmt.Printf("    vault bal: %s | esm bal: %s\n", w.App.BankKeeper.GetAllBalances(ctx, w.ModAddr("vaultV1")), w.App.BankKeeper.GetAllBalances(ctx, w.ModAddr("esmV1")))
+	for _, v := range w.App.VaultKeeper.GetVaults(ctx) {
+		fmt.Printf("    vault %d app=%d ext=%d in=%s out=%s\n", v.Id, v.AppId, v.ExtendedPairVaultID, v.AmountIn, v.AmountOut)
+	}
+	for _, st := range w.App.EsmKeeper.GetAllESMStatus(ctx) {
+		fmt.Printf("    esm app=%d status=%v end=%d snap=%v vaultRed=%v stableRed=%v coll=%v share=%v\n", st.AppId, st.Status, st.EndTime.Unix(), st.SnapshotStatus, st.VaultRedemptionStatus, st.StableVaultRedemptionStatus, st.CollectorTransaction, st.ShareCalculation)
+	}
+}
